@@ -183,7 +183,7 @@ func sigOracle(r *Result, cl *cluster, m *member, lastAnchor map[int]int) {
 }
 
 func runC09(r *Result, thorough bool) {
-	r.Rule = "G2 runs of real cores (3-5 validators, joins and leaves) with adversarial signature pools injected into members: signatures over other bodies, by non-validators (strangers, not-yet-effective joiners, removed validators), duplicates, unknown / future / negative block indexes, malformed encodings; " +
+	r.Rule = "G2 runs of real cores (3-5 validators, joins and leaves) with adversarial signature pools injected into members: signatures over other bodies, by non-validators (strangers, not-yet-effective joiners, removed validators), duplicates, unknown / future / negative block indexes, malformed encodings, and sweeps in which the joiner and the leaver sign every block a node holds; " +
 		"every ProcessSigPool run vs the Lean model (recorded signer sets per block, anchor, remaining pool); oracle after every step: each recorded signature re-verified with the real Verify against the node's own body and round set, anchor > n/3 valid distinct signers and monotone, own signature only on delivered blocks. non-trivial: a run where >=1 signature was recorded and >=1 refused"
 	rng := rand.New(rand.NewSource(r.Seed))
 	runs := 4
@@ -197,7 +197,7 @@ func runC09(r *Result, thorough bool) {
 		strangerP := newParticipants(rng, 2)
 		strangers := map[string]int{strangerP[0].hex: 900, strangerP[1].hex: 901}
 		lastAnchor := map[int]int{}
-		steps := 200 + rng.Intn(150)
+		steps := 320 + rng.Intn(150)
 		var joiner *member
 		leaveDone := false
 		for s := 0; s < steps; s++ {
@@ -209,12 +209,37 @@ func runC09(r *Result, thorough bool) {
 			if rng.Intn(3) == 0 {
 				cl.submit(a, cl.newTx())
 			}
-			if joiner == nil && s == steps/5 {
+			if joiner == nil && s >= steps/6 {
 				joiner = cl.startJoin(a)
 			}
-			if !leaveDone && s == steps/2 && n >= 4 {
+			if !leaveDone && s >= steps/3 && n >= 4 {
 				cl.startLeave(cl.members[n-1])
 				leaveDone = true
+			}
+			// sweep: a member whose membership changes (the joiner, the leaver) signs EVERY block the
+			// node holds — those of rounds in which it is a validator and those in which it is not,
+			// in particular the first blocks around the effective round of the change
+			if (joiner != nil || leaveDone) && rng.Intn(12) == 0 {
+				hgb := b.core.Hashgraph()
+				who := []*member{}
+				if joiner != nil {
+					who = append(who, joiner)
+				}
+				if leaveDone {
+					who = append(who, cl.members[n-1])
+				}
+				for _, m := range who {
+					for idx := 0; idx <= hgb.Store.LastBlockIndex(); idx++ {
+						if blk, err := hgb.Store.GetBlock(idx); err == nil {
+							if bs, err := blk.Sign(m.key); err == nil {
+								hgb.PendingSignatures.Add(bs)
+							}
+						}
+					}
+				}
+				r.Inc("membership_signature_sweeps", 1)
+				guarded(func() error { return b.core.ProcessSigPool() })
+				sigOracle(r, cl, b, lastAnchor)
 			}
 			// adversarial pool entries for b before it syncs
 			if rng.Intn(6) == 0 {
